@@ -35,6 +35,7 @@ static const char* K_VECINF = "getbound-vector-scales-infinity";  // getLowerRea
 static const char* K_SOLVEDIM = "exact-solve-changes-real-lp";  // optimize() in rational mode returns with a real LP that lost/gained rows or columns
 static const char* K_SCALEROFF = "scaler-off-on-scaled-lp";  // SCALER_OFF after a solve left the LP scaled: getRowVectorReal calls a null scaler
 static const char* K_SOLVEDATA = "exact-solve-changes-lp-data";  // optimize() returns with changed coefficients (LIFTING: _project() does not restore lifted entries)
+static const char* K_OBJRATSCALE = "changeobjrational-ignores-scaling";  // changeObjRational(vector) writes the unscaled objective into a scaled real LP
 static const char* K_IMPLSCALED = "implicit-create-on-scaled-lp";  // entry beyond the dimension after a solve: doAddRow/doAddCol read scaleExp out of bounds
 static bool known(const char* key)
 {
@@ -1768,6 +1769,15 @@ bool Runner::stepRational(const Rec& r)
       hadAdd = true;
       hadRat = true;
       return true;
+   }
+   if(t == "changeObjRational" && maybeScaled)
+   {
+      ev().count("changeobjrational_after_solve");
+      if(known(K_OBJRATSCALE))
+      {
+         ev().count(std::string("excluded_known.") + K_OBJRATSCALE);
+         return true;
+      }
    }
    if(t == "changeObjRational" || t == "changeLhsRational" || t == "changeRhsRational")
    {
